@@ -9,7 +9,8 @@ from ..harness import Sub, Violation, Inconclusive, crash_is_violation
 from ..oracles import bspl
 
 PROPERTY = "C08"
-HANG_SECONDS = 40.0
+HANG_SECONDS = 60.0
+LINE_BUDGET = 1000000000
 RULE = ("Hypothesis-generated spline spaces (as C07; 2-D: all four clamped/periodic combinations, uniform-cubic "
         "in both directions or neither) and data vectors/matrices (floats, badly scaled mixes 1e-8..1e8, "
         "complex on clamped 1-D spaces, polynomials of degree <= p).  Oracle: coefficients from "
